@@ -14,7 +14,7 @@ CONFIG = dict(
           "grid value and random patterns; all ordered pairs of ~150 legal values through <,<=,>,>=,==,partial_cmp,cmp; "
           "all ordered pairs of ~100 legal values through + and -, and through * and / with every grid value as raw f64 "
           "scalar (incl. NaN/-inf), and unary -; all ordered triples of a 40-value (thorough 64) grid; sort/min/max of "
-          "random lists; multi-objective constructor on all vectors of length <=3 over a 9-value grid, partial_cmp on "
+          "random lists of up to 120 elements; multi-objective constructor on all vectors of length <=3 over a 9-value grid, partial_cmp on "
           "pairs of vectors of length <=3 over a 7-value grid incl. unequal lengths (all 160801 pairs in the thorough "
           "tier; all pairs of length <=2, all over a 4-value grid, and 30000 sampled pairs in the quick tier), random "
           "longer vectors, triples of vectors. A case is non-trivial if it involves at least two values or a vector; "
